@@ -1030,6 +1030,7 @@ def check_grid_kernels(ctx, G, cases):
         codes[getattr(fn, '__wrapped__', fn).__code__] = fname
     gcd_code = getattr(G, 'great_circle_distance', None)
     gcd_code = gcd_code.__code__ if gcd_code is not None else None
+    grid_file = G.__file__
     queue: list = []
     seen: set = set()
 
@@ -1080,12 +1081,23 @@ def check_grid_kernels(ctx, G, cases):
         obs: list = []
         table: list = []
         pending: dict = {}
+        inner: dict = {}
 
         def local(frame, event, arg):
             if event == 'return':
                 fname = codes.get(frame.f_code)
                 if fname is not None and arg is not None:
-                    obs.append((fname, pending.pop(id(frame), {}), snap(frame.f_locals), arg))
+                    loc = dict(inner.pop(id(frame), {}))
+                    loc.update(snap(frame.f_locals))
+                    obs.append((fname, pending.pop(id(frame), {}), loc, arg))
+                elif fname is None and frame.f_code is not gcd_code and arg is not None:
+                    # a helper of grid.py running inside an observed function (the share arithmetic extracted into a method,
+                    # say): its locals are visible to the observation of the enclosing call under their own names
+                    f = frame.f_back
+                    while f is not None and f.f_code not in codes:
+                        f = f.f_back
+                    if f is not None:
+                        inner.setdefault(id(f), {}).update(snap(frame.f_locals))
                 elif frame.f_code is gcd_code and arg is not None:
                     a = [frame.f_locals.get(n_) for n_ in ('lat1', 'lon1', 'lat2', 'lon2')]
                     if all(t is not None and np.ndim(t) == 0 for t in a) and np.ndim(arg) == 0:
@@ -1096,6 +1108,8 @@ def check_grid_kernels(ctx, G, cases):
             if event == 'call' and (frame.f_code in codes or frame.f_code is gcd_code):
                 if frame.f_code in codes:
                     pending[id(frame)] = snap(frame.f_locals)
+                return local
+            if event == 'call' and frame.f_code.co_filename == grid_file:
                 return local
             return None
 
